@@ -97,6 +97,36 @@ func genC17(tier string, seed uint64, emit func(string)) {
 			}
 		}
 	}
+	// literal characters outside ASCII (two-, three- and four-byte UTF-8 sequences) in patterns and keys: they match
+	// themselves, `*` covers them (`?` is left out here: whether it stands for one byte or one character of a multi-byte
+	// sequence is not something the property settles)
+	{
+		toks := []string{"a", "*", "\u00e9", "\u65e5", "\u00fc", "\U0001F600", "\u043a"}
+		var words func(n int, alpha []string) []string
+		words = func(n int, alpha []string) []string {
+			out := []string{""}
+			frontier := []string{""}
+			for l := 0; l < n; l++ {
+				var next []string
+				for _, w := range frontier {
+					for _, t := range alpha {
+						next = append(next, w+t)
+					}
+				}
+				out = append(out, next...)
+				frontier = next
+			}
+			return out
+		}
+		var keys []string
+		for _, k := range words(2, []string{"a", "\u00e9", "\u65e5", "\u00fc", "\U0001F600", "\u043a"}) {
+			keys = append(keys, hx([]byte(k)))
+		}
+		for _, p := range words(3, toks) {
+			emit("glob " + hx([]byte(p)) + " " + strings.Join(keys, " "))
+			emit("keyscan " + hx([]byte(p)) + " " + strings.Join(keys[1:], " "))
+		}
+	}
 	// patterns on which a backtracking matcher takes exponentially many steps (many stars, each piece matching inside a
 	// repetitive key, a tail that does not): compiling and matching stays instantaneous (the per-case deadline turns a
 	// matcher that does not come back into a failure)
